@@ -39,7 +39,7 @@ pub fn pool(args: &[&str]) -> Option<Vec<String>> {
     let mut results = Vec::new();
     match client {
         "s" => {
-            let t = SmtpTransport::builder_dangerous("127.0.0.1")
+            let t = SmtpTransport::builder_dangerous(crate::util::lo())
                 .port(port)
                 .hello_name(hello)
                 .timeout(Some(timeout))
@@ -56,7 +56,7 @@ pub fn pool(args: &[&str]) -> Option<Vec<String>> {
             let rt = tokio::runtime::Builder::new_multi_thread().worker_threads(2).enable_all().build().ok()?;
             let hung = rt.block_on(async {
                 let mut hung = false;
-                let t: AsyncSmtpTransport<Tokio1Executor> = AsyncSmtpTransport::<Tokio1Executor>::builder_dangerous("127.0.0.1")
+                let t: AsyncSmtpTransport<Tokio1Executor> = AsyncSmtpTransport::<Tokio1Executor>::builder_dangerous(crate::util::lo())
                     .port(port)
                     .hello_name(hello)
                     .timeout(Some(timeout))
@@ -103,7 +103,7 @@ pub fn wstall(args: &[&str]) -> Option<Vec<String>> {
     let client = *args.first()?;
     let t_ms: u64 = args.get(1)?.parse().ok()?;
     let mib: usize = args.get(2)?.parse().ok()?;
-    let listener = std::net::TcpListener::bind("127.0.0.1:0").ok()?;
+    let listener = std::net::TcpListener::bind((crate::util::lo(), 0)).ok()?;
     let port = listener.local_addr().ok()?.port();
     let stop = Arc::new(AtomicBool::new(false));
     let stop2 = stop.clone();
@@ -141,7 +141,7 @@ pub fn wstall(args: &[&str]) -> Option<Vec<String>> {
         "s" => {
             let (tx, rx) = std::sync::mpsc::channel();
             std::thread::spawn(move || {
-                let t = SmtpTransport::builder_dangerous("127.0.0.1").port(port).hello_name(hello).timeout(Some(timeout)).build();
+                let t = SmtpTransport::builder_dangerous(crate::util::lo()).port(port).hello_name(hello).timeout(Some(timeout)).build();
                 let r = t.send_raw(&envelope, &msg);
                 let _ = tx.send(format!("{}@{}", describe(&r), is_timeout(&r)));
             });
@@ -154,7 +154,7 @@ pub fn wstall(args: &[&str]) -> Option<Vec<String>> {
             let rt = tokio::runtime::Builder::new_multi_thread().worker_threads(2).enable_all().build().ok()?;
             let s = rt.block_on(async {
                 let t: AsyncSmtpTransport<Tokio1Executor> =
-                    AsyncSmtpTransport::<Tokio1Executor>::builder_dangerous("127.0.0.1").port(port).hello_name(hello).timeout(Some(timeout)).build();
+                    AsyncSmtpTransport::<Tokio1Executor>::builder_dangerous(crate::util::lo()).port(port).hello_name(hello).timeout(Some(timeout)).build();
                 match tokio::time::timeout(cap, t.send_raw(&envelope, &msg)).await {
                     Ok(r) => format!("{}@{}", describe(&r), is_timeout(&r)),
                     Err(_) => "HANG@-".into(),
@@ -178,7 +178,7 @@ pub fn cstall(args: &[&str]) -> Option<Vec<String>> {
     use std::os::fd::AsRawFd;
     let client = *args.first()?;
     let t_ms: u64 = args.get(1)?.parse().ok()?;
-    let listener = std::net::TcpListener::bind("127.0.0.1:0").ok()?;
+    let listener = std::net::TcpListener::bind((crate::util::lo(), 0)).ok()?;
     // SAFETY: listen(2) on a valid listening socket only changes its backlog
     unsafe { libc::listen(listener.as_raw_fd(), 0) };
     let addr = listener.local_addr().ok()?;
@@ -206,7 +206,7 @@ pub fn cstall(args: &[&str]) -> Option<Vec<String>> {
         "s" => {
             let (tx, rx) = std::sync::mpsc::channel();
             std::thread::spawn(move || {
-                let t = SmtpTransport::builder_dangerous("127.0.0.1").port(port).hello_name(hello).timeout(Some(timeout)).build();
+                let t = SmtpTransport::builder_dangerous(crate::util::lo()).port(port).hello_name(hello).timeout(Some(timeout)).build();
                 let r = t.send_raw(&envelope, b"m\r\n");
                 let _ = tx.send(format!("{}@{}", describe(&r), is_timeout(&r)));
             });
@@ -219,7 +219,7 @@ pub fn cstall(args: &[&str]) -> Option<Vec<String>> {
             let rt = tokio::runtime::Builder::new_multi_thread().worker_threads(2).enable_all().build().ok()?;
             let s = rt.block_on(async {
                 let t: AsyncSmtpTransport<Tokio1Executor> =
-                    AsyncSmtpTransport::<Tokio1Executor>::builder_dangerous("127.0.0.1").port(port).hello_name(hello).timeout(Some(timeout)).build();
+                    AsyncSmtpTransport::<Tokio1Executor>::builder_dangerous(crate::util::lo()).port(port).hello_name(hello).timeout(Some(timeout)).build();
                 match tokio::time::timeout(cap, t.send_raw(&envelope, b"m\r\n")).await {
                     Ok(r) => format!("{}@{}", describe(&r), is_timeout(&r)),
                     Err(_) => "HANG@-".into(),
